@@ -15,11 +15,12 @@
 EXTENDS Watch, IOUtils
 
 Trace == ndJsonDeserialize(IOEnv.VERIF_TRACE)
-TraceInvalid == { Trace[i].version : i \in { j \in 1..Len(Trace) : Trace[j].e = "edit" /\ ~Trace[j].valid } }
+TraceInvalid == { Trace[i].version : i \in { j \in 1..Len(Trace) : Trace[j].e \in {"editbegin", "reset"} /\ ~Trace[j].valid } }
 TraceMaxEdits == Len(Trace)
 
-VARIABLE l
-tvars == <<vars, l>>
+VARIABLES l,      \* next line of the trace
+          pend    \* line number of an edit that has begun and not yet taken effect (0: none)
+tvars == <<vars, l, pend>>
 
 ToSetOf(s) == { s[i] : i \in 1..Len(s) }
 IsEvent(e) == l <= Len(Trace) /\ Trace[l].e = e /\ l' = l + 1
@@ -27,32 +28,38 @@ IsEvent(e) == l <= Len(Trace) /\ Trace[l].e = e /\ l' = l + 1
 \* nothing runs until the first "reset" line starts a watcher
 TInit == /\ content = 0 /\ edits = 0 /\ timer = FALSE /\ spawned = 1
          /\ st = [r \in Regens |-> "none"] /\ ver = [r \in Regens |-> None] /\ wrote = [r \in Regens |-> 0]
-         /\ lock = 0 /\ out = [f \in Files |-> None] /\ hist = <<>> /\ l = 1
+         /\ lock = 0 /\ out = [f \in Files |-> None] /\ hist = <<>> /\ watched = {"main"} /\ l = 1 /\ pend = 0
 
-TReset == /\ IsEvent("reset") /\ Drained
+TReset == /\ IsEvent("reset") /\ Drained /\ pend = 0 /\ UNCHANGED pend
           /\ content' = Trace[l].version /\ content' > content
           /\ edits' = edits /\ timer' = FALSE /\ spawned' = 1
           /\ st' = [r \in Regens |-> IF r = 1 THEN "spawned" ELSE "none"]
           /\ ver' = [r \in Regens |-> None] /\ wrote' = [r \in Regens |-> 0] /\ lock' = 0
-          /\ out' = [f \in Files |-> None] /\ hist' = <<>>
-TEdit == IsEvent("edit") /\ (\E k \in Kinds : Edit(k)) /\ content' = Trace[l].version
-TFsEvent == IsEvent("fsevent") /\ timer' = TRUE /\ UNCHANGED <<content, edits, spawned, st, ver, wrote, lock, out, hist>>
-TStart == IsEvent("start") /\ \E r \in Regens : Acquire(r) /\ st'[r] = "running"
-TRead == IsEvent("read") /\ \E r \in Regens : Read(r) /\ (Trace[l].ok <=> st'[r] = "read")
-TWrite == IsEvent("write") /\ \E r \in Regens : Write(r)
-TEnd == IsEvent("end") /\ \E r \in Regens : End(r)
+          /\ out' = [f \in Files |-> None] /\ hist' = <<>> /\ watched' = {"main"}
+\* The harness logs an edit before and after it touches the file; when exactly in between the new contents become visible to a
+\* regeneration that is reading is not observable, so the edit itself is an internal step between the two lines.
+DoEdit(j) == (\E k \in Kinds : Edit(k, Trace[j].dir)) /\ content' = Trace[j].version
+TEditBegin == IsEvent("editbegin") /\ pend = 0 /\ pend' = l /\ UNCHANGED vars
+ApplyEdit == pend # 0 /\ DoEdit(pend) /\ pend' = 0 /\ l' = l
+TEditEnd == IsEvent("editend") /\ \/ (pend # 0 /\ DoEdit(pend) /\ pend' = 0)
+                                  \/ (pend = 0 /\ UNCHANGED <<vars, pend>>)
+TFsEvent == IsEvent("fsevent") /\ timer' = TRUE /\ UNCHANGED <<content, edits, spawned, st, ver, wrote, lock, out, hist, watched, pend>>
+TStart == IsEvent("start") /\ UNCHANGED pend /\ \E r \in Regens : Acquire(r) /\ st'[r] = "running"
+TRead == IsEvent("read") /\ UNCHANGED pend /\ \E r \in Regens : Read(r) /\ (Trace[l].ok <=> st'[r] = "read")
+TWrite == IsEvent("write") /\ UNCHANGED pend /\ \E r \in Regens : Write(r)
+TEnd == IsEvent("end") /\ UNCHANGED pend /\ \E r \in Regens : End(r)
 \* what is on disk after draining is what the specification says was written last
-TFinal == /\ IsEvent("final") /\ Drained
+TFinal == /\ IsEvent("final") /\ Drained /\ pend = 0 /\ UNCHANGED pend
           /\ \A f \in Files : out[f] \in ToSetOf(Trace[l].candidates)
           /\ UNCHANGED vars
-Silent == TimerFire /\ l' = l
+Silent == TimerFire /\ l' = l /\ UNCHANGED pend
 
-TNext == TReset \/ TEdit \/ TFsEvent \/ TStart \/ TRead \/ TWrite \/ TEnd \/ TFinal \/ Silent
+TNext == TReset \/ TEditBegin \/ ApplyEdit \/ TEditEnd \/ TFsEvent \/ TStart \/ TRead \/ TWrite \/ TEnd \/ TFinal \/ Silent
 TraceSpec == TInit /\ [][TNext]_tvars
 
 \* acceptance: some behaviour consumes every line (high-water mark of l; run with -workers 1)
 HighWater == TLCSet(1, IF TLCGet(1) < l THEN l ELSE TLCGet(1))
 ASSUME TLCSet(1, 0)
 TraceAccepted == IF TLCGet(1) = Len(Trace) + 1 THEN TRUE ELSE PrintT(<<"STUCK", TLCGet(1)>>) /\ FALSE
-TView == <<View, l>>
+TView == <<View, l, pend>>
 =============================================================================
